@@ -22,6 +22,9 @@ pub struct CliProp {
     pub assumptions: &'static [&'static str],
     /// deterministic extra tier (enumerations)
     pub extra: Option<fn(&mut Reporter, &mut Stats, Tier)>,
+    /// inputs excluded from the verdict domain because they match a known finding (returns its id);
+    /// never applied when a replay file is run
+    pub exclude: Option<fn(&CliCase) -> Option<&'static str>>,
 }
 
 pub fn replay_value(prop: &str, case: &CliCase, detail: &str, origin: &str, run: Option<&CliRun>) -> Value {
@@ -137,6 +140,12 @@ pub fn run(prop: &CliProp, tier: Tier) -> i32 {
                     }
                     return Ok(());
                 };
+                if let Some(kf) = prop.exclude.and_then(|e| e(&case)) {
+                    if !*failed.borrow() {
+                        *st.borrow_mut().excluded.entry(kf.to_string()).or_default() += 1;
+                    }
+                    return Ok(());
+                }
                 let (v, run) = match judge(prop, &case) {
                     Ok(x) => x,
                     Err(e) => {
